@@ -33,7 +33,17 @@ var c18plain = [][2]string{
 	{"/vault/customer-x/", "$X/"},
 	{"corp.example.com/secret-team", "$T"}, // a directory that is not an absolute path (module-relative names of -trimpath builds)
 	{"/srv/ci/app$nightly/w", "~work-tree-of-the-nightly-build"}, // a '$' in the directory name; a short form that is longer than the directory
+	{"${CWD}", "~proj"}, // the directory the process was started in (the key of the built-in "." rule), under a name of the user's own
 }
+
+// the user's home directory and the working directory of the process as it started, asked from the operating system
+// when the worker starts (before any Chdir of the harness) - not read from the package
+var c18home, _ = os.UserHomeDir()
+var c18cwd0, _ = os.Getwd()
+
+func c18homeCwd() (string, string) { return c18home, c18cwd0 }
+
+func c18key(i int) string { return c18expand(c18plain[i][0]) }
 
 var c18regexps = [][2]string{
 	{`^/data/[0-9]+/`, "#"},
@@ -77,15 +87,15 @@ func c18ops() []c18op {
 }
 
 func c18apply(o c18op) {
-	home, _ := slog.VerifHomeCwd()
+	home, _ := c18homeCwd()
 	switch o.Kind {
 	case "add":
-		slog.AddKnownPathMapping(c18plain[o.Arg][0], c18plain[o.Arg][1])
+		slog.AddKnownPathMapping(c18key(o.Arg), c18plain[o.Arg][1])
 	case "remove":
 		if o.Arg == len(c18plain) {
 			slog.RemoveKnownPathMapping(home)
 		} else {
-			slog.RemoveKnownPathMapping(c18plain[o.Arg][0])
+			slog.RemoveKnownPathMapping(c18key(o.Arg))
 		}
 	case "reset":
 		slog.ResetKnownPathMapping()
@@ -122,12 +132,12 @@ func c18modelApply(t c18tables, o c18op, home string) c18tables {
 	}
 	switch o.Kind {
 	case "add":
-		n.plain[c18plain[o.Arg][0]] = c18plain[o.Arg][1]
+		n.plain[c18key(o.Arg)] = c18plain[o.Arg][1]
 	case "remove":
 		if o.Arg == len(c18plain) {
 			delete(n.plain, home)
 		} else {
-			delete(n.plain, c18plain[o.Arg][0])
+			delete(n.plain, c18key(o.Arg))
 		}
 	case "reset":
 		n.plain = map[string]string{}
@@ -242,13 +252,13 @@ func permutations(n int) [][]int {
 }
 
 func c18expand(p string) string {
-	home, cwd := slog.VerifHomeCwd()
+	home, cwd := c18homeCwd()
 	p = strings.ReplaceAll(p, "${CWDUP}", filepath.Dir(cwd))
 	return strings.ReplaceAll(strings.ReplaceAll(p, "${HOME}", home), "${CWD}", cwd)
 }
 
 func c18symbolic(s string) string {
-	home, cwd := slog.VerifHomeCwd()
+	home, cwd := c18homeCwd()
 	if cwd != "" {
 		s = strings.ReplaceAll(s, cwd, "${CWD}")
 	}
@@ -286,7 +296,7 @@ func c18setFlags(privacy, re bool) {
 // c18build replays the table history on fresh globals and returns the model.
 func c18build(ops []c18op) c18tables {
 	resetGlobals()
-	home, cwd := slog.VerifHomeCwd()
+	home, cwd := c18homeCwd()
 	t := c18tables{plain: map[string]string{home: "~", cwd: "."}, re: [][2]string{c18regexps[1]}}
 	for _, o := range ops {
 		c18apply(o)
@@ -431,9 +441,16 @@ func c18run(c *Ctx) {
 	if c.Thorough() {
 		capN = 6
 	}
-	c.Info("mapping_table_size_cap", capN)
+	if ps := os.Getenv("VERIF_PASS"); ps == "nohome" || ps == "homelink" {
+		// the passes whose process was started without a home directory (services, env -i, scratch containers) or with
+		// a home directory that is reached through a symbolic link: smaller table cap
+		capN -= 1
+		c.Info("mapping_table_size_cap_in_the_passes_with_another_HOME", capN)
+	} else {
+		c.Info("mapping_table_size_cap", capN)
+	}
 	ops := c18ops()
-	home, cwd := slog.VerifHomeCwd()
+	home, cwd := c18homeCwd()
 	c.Info("home", home)
 	type node struct {
 		ops []c18op
